@@ -17,12 +17,23 @@ type vpMsgOpts struct {
 	typ      pb.MessageType
 	maxEnts  int
 	ctx      bool // symbolic context (nil / transfer marker / 8 symbolic bytes)
+	readCtx  bool // nil or 8 symbolic bytes (what a follower echoes: V-read)
 	snap     bool
 	plain    bool // entries are EntryNormal
 	propEnts bool // entries as a proposer builds them (no term/index)
 }
 
 const vpCampaignTransfer = "CampaignTransfer"
+
+// vpReadContext: nil or the 8-byte position encoding (V-read).
+func vpReadContext() []byte {
+	if vpChoose(2) == 1 {
+		b := make([]byte, 8)
+		binary.LittleEndian.PutUint64(b, vpU64())
+		return b
+	}
+	return nil
+}
 
 func vpContext() []byte {
 	switch vpChoose(3) {
@@ -66,6 +77,9 @@ func vpMessage(o vpMsgOpts, k *vpConds) *pb.Message {
 	}
 	if o.ctx {
 		m.Context = vpContext()
+	}
+	if o.readCtx {
+		m.Context = vpReadContext()
 	}
 	if o.snap {
 		si, st := vpU64(), vpU64()
@@ -333,6 +347,12 @@ func vpH_step_L_MsgAppResp_from2_lean() {
 	vpStepCell(StateLeader, o, vpMsgOpts{typ: pb.MsgAppResp})
 }
 
+func vpH_step_L_MsgProp_lean() {
+	o := vpDefaultOpts(StateLeader)
+	o.ls, o.lu = 0, 1
+	vpStepCell(StateLeader, o, vpMsgOpts{typ: pb.MsgProp, maxEnts: 2, propEnts: true})
+}
+
 func vpH_size_L_MsgHeartbeatResp() { vpSizeCell(pb.MsgHeartbeatResp, 2) }
 func vpH_size_L_MsgProp()          { vpSizeCell(pb.MsgProp, 1) }
 func vpH_size_L_MsgAppResp()       { vpSizeCell(pb.MsgAppResp, 2) }
@@ -428,7 +448,9 @@ func vpStepCell(role StateType, o vpOpts, mo vpMsgOpts) {
 	preCfg := r.trk.ConfState()
 	rp := vpReadRecord(r)
 	orig := append([]*pb.Entry(nil), m.GetEntries()...)
+	handed := vpHandOut(r)
 	err := r.Step(m)
+	handed.check("M4/handed-out-entries-never-rewritten")
 	vpObserve("step", vpB2U(err != nil), r.Term, r.Vote, r.lead, uint64(r.state), r.raftLog.committed, uint64(len(r.msgs)), uint64(len(r.msgsAfterAppend)))
 	vpGenericPost(r, pre, m)
 	vpPostVotesGeneric(r, pre, m)
@@ -468,6 +490,7 @@ func vpStepCell(role StateType, o vpOpts, mo vpMsgOpts) {
 
 func vpReadCell(typ pb.MessageType, shapes []int, reads, pend int) {
 	o := vpDefaultOpts(StateLeader)
+	o.ls, o.lu = 0, 1
 	o.shapes = shapes
 	o.reads = reads
 	o.pendReads = pend
@@ -477,12 +500,13 @@ func vpReadCell(typ pb.MessageType, shapes []int, reads, pend int) {
 		mo.maxEnts = 1
 		mo.propEnts = true
 	} else {
-		mo.ctx = true
+		mo.readCtx = true
 	}
 	vpStepCell(StateLeader, o, mo)
 }
 
 func vpH_read_L_MsgReadIndex()           { vpReadCell(pb.MsgReadIndex, []int{0, 1}, 1, 1) }
 func vpH_read_L_MsgReadIndex_singleton() { vpReadCell(pb.MsgReadIndex, []int{6, 8}, 0, 0) }
-func vpH_read_L_MsgHeartbeatResp()       { vpReadCell(pb.MsgHeartbeatResp, []int{0}, 2, 0) }
-func vpH_read_L_MsgHeartbeatResp_joint() { vpReadCell(pb.MsgHeartbeatResp, []int{1, 9}, 2, 0) }
+func vpH_read_L_MsgHeartbeatResp()       { vpFromOnly = 2; vpReadCell(pb.MsgHeartbeatResp, []int{0}, 2, 0) }
+func vpH_read_L_MsgHeartbeatResp_joint() { vpFromOnly = 2; vpReadCell(pb.MsgHeartbeatResp, []int{1}, 2, 0) }
+func vpH_read_L_MsgHeartbeatResp_any()   { vpReadCell(pb.MsgHeartbeatResp, []int{0, 1, 9}, 2, 0) }
